@@ -40,6 +40,9 @@ type c16Case struct {
 	Shape      string   `json:"key_shape"`
 	SmallInts  bool     `json:"small_int_key_types"`
 	ExplicitKF bool     `json:"explicit_key_fields"`
+	// Collide: every stream row also carries a top-level field named like the table qualifier used in the
+	// statement (the alias m, or the table name meta): the joined row must still win for m.col / meta.col
+	Collide bool `json:"stream_field_named_like_table"`
 
 	where   *c16Where
 	out     map[string]string // logical column -> output name (direct modes)
@@ -194,6 +197,7 @@ func genC16(ref core.CaseRef, r *rand.Rand) *c16Case {
 		}
 		return ""
 	}
+	c.Collide = r.Intn(5) == 0
 	joinKw := pick(r, []string{"JOIN", "INNER JOIN"})
 	if c.Left {
 		joinKw = pick(r, []string{"LEFT JOIN", "LEFT OUTER JOIN"})
